@@ -708,9 +708,17 @@ where
     let members_y = if action.is_create() {
         GroupMembersState::default()
     } else {
-        groups_y
-            .remove(&group_id)
-            .expect("group already present in states map")
+        match groups_y.remove(&group_id) {
+            Some(members_y) => members_y,
+            None => {
+                // The group does not exist at this point in the graph (the operation does not
+                // have the group's "create" in its causal history), so nobody can act in it.
+                return StateChangeResult::Error {
+                    state: groups_y,
+                    error: GroupMembershipError::UnrecognisedActor(GroupMember::Individual(actor)),
+                };
+            }
+        }
     };
 
     if filter.contains(&id) {
